@@ -357,11 +357,24 @@ def run(ctx):
             continue
         calls = [n for _, _, e in f.roots() for n in elem_calls(e)]
         to_argv = any(n.get("callee") == PARSE_ARGV for n in calls)
+        # a template overload that copies an iterator range into the token vector and hands it to the vector overload: whether strings
+        # become tokens there depends on which iterator types the overload accepts - decided by the type-level witnesses below
+        pnames = {p0["name"] for p0 in f.params}
+        cons = [n for _, _, e in f.all_elems() if e.get("expr") is not None for n in walk(e["expr"]) if n.get("k") == "construct" and "user_input" in (n.get("name") or n.get("type") or "")]
+        if f.is_pattern and cons and all("vector" in (n.get("name") or n.get("type") or "") and len(n.get("args", [])) == 2
+                                         and all(isinstance(ir.unwrap(a), dict) and ir.unwrap(a).get("k") == "ref" and ir.unwrap(a)["decl"].split(":", 1)[-1] in pnames for a in n["args"]) for n in cons) \
+                and any(short(n.get("name") or "") == "parse" for n in calls):
+            ctx.ok("R12.10", f, "entry-point:" + _psig(f), "copies the range [%s) into the token vector and delegates to parse(vector): element types admitted are decided by witness/tl_C12.cpp" % ", ".join(sorted(pnames)), f)
+            continue
         builds = [fmt(n)[:60] for _, _, e in f.all_elems() if e.get("expr") is not None for n in walk(e["expr"]) if n.get("k") == "construct" and "user_input" in (n.get("name") or n.get("type") or "")]
         ctx.check(to_argv and not builds, "R12.10", f, "entry-point:" + _psig(f),
                   "parse(%s) %s: tokens behind `--` go through the syntax check there, so `prog -- -` or `-- ---x` raises instead of yielding the positional%s"
                   % (", ".join(p0.get("type") or "?" for p0 in f.params), "builds its tokens itself (%s)" % builds[0] if builds else "does not delegate to parse(argc, argv)",
                      " - and for a `char**` / `const char*[]` argument this overload is the better match, so existing calls are rerouted" if f.is_pattern else ""), f)
+    from sa import witness as _wit
+    from sa.extract import VERIF as _VERIF
+    import os as _os
+    _wit.apply(ctx, lambda t: "R12.10", _os.path.join(_VERIF, "witness", "tl_C12.cpp"), broken_tags=("w9",))
     # ---- R12.11: nothing on the options path reads an object it has just moved from
     ctx.rule("R12.11", "no function of the options code reads a local / parameter after handing it to std::move (e.g. asking a moved-from token whether it was `--`)")
     from .common import rule_no_use_after_move
@@ -380,6 +393,14 @@ def run(ctx):
         from .common import share
         share(ctx, "C02", ("R02.3",), "R12.14", "value-selection obligations shared with C02", 2)
         share(ctx, "C04", ("R04.4",), "R12.14", "token-syntax obligations shared with C04", 1)
+    ctx.rule("R12.16", "parse(argc, argv) passes no element of argv over (R01.14 re-evaluated): an empty or odd-looking word behind `--` is a positional like any other")
+    from .common import rule_every_argument_tokenised
+    rule_every_argument_tokenised(ctx, "R12.16")
+    # ---- R12.15: an index outside the positionals is an exception the caller can catch
+    ctx.rule("R12.15", "no accessor of the parse result is declared noexcept and reaches a throwing access (`at`) or a raise: `args[n]` beyond the last positional raises std::out_of_range / "
+                       "the library's error, it does not end the process")
+    from .common import rule_noexcept
+    rule_noexcept(ctx, "R12.15", lambda f: f.file.endswith("options/arguments.hpp"), "an index that is out of range has to raise", minimum=5)
     # ---- R12.13: the settings travel with the parser
     ctx.rule("R12.13", "the hand-written move operations of parser take over every data member (accepted count, greedy switch, positional name, groups ...): a parser built in a factory and moved into place accepts the same positionals")
     from .common import rule_special_members_complete
